@@ -14,11 +14,29 @@ MAP_ADD = {"insert", "emplace", "try_emplace", "insert_or_assign"}
 MAP_DEL = {"erase", "clear", "extract"}
 
 
-def _is_param(n, name):
+def _is_param(n, name, depth=0):
+    """the unmodified parameter itself, or a local that is initialised from it and never written again"""
     n = n.strip_all()
     while n.k in ("CXXConstructExpr",) and len(n.c) == 1:
         n = n.c[0].strip_all()
-    return n.k == "DeclRefExpr" and n.decl and n.decl.get("k") == "parm" and n.decl.get("n") == name
+    if n.k == "DeclRefExpr" and n.decl and n.decl.get("k") == "parm" and n.decl.get("n") == name:
+        return True
+    if n.k == "DeclRefExpr" and n.decl and n.decl.get("k") == "local" and depth < 2:
+        fn = n.fn
+        defs = [v for v in fn.walk() if v.k == "VarDecl" and v.decl["id"] == n.decl["id"]]
+        if len(defs) != 1 or not defs[0].c:
+            return False
+        for w in fn.walk():
+            if w.k in ("BinaryOperator", "CompoundAssignOperator") and w.op and w.op.endswith("=") and w.op not in ("==", "!=", "<=", ">=") and w.c:
+                l = w.c[0].strip_all()
+                if l.k == "DeclRefExpr" and l.decl.get("id") == n.decl["id"]:
+                    return False
+            if w.k == "UnaryOperator" and w.op in ("++", "--") and w.c:
+                l = w.c[0].strip_all()
+                if l.k == "DeclRefExpr" and l.decl.get("id") == n.decl["id"]:
+                    return False
+        return _is_param(defs[0].c[0], name, depth + 1)
+    return False
 
 
 def _short(qn):
